@@ -1,4 +1,4 @@
-SPECIFICATION Spec
+SPECIFICATION SpecSim
 CONSTANTS MaxLen = 48
 Alphabet <- AlphaAll
 INVARIANTS NormalFormSafe NormalFormFixed IdentitySafe
